@@ -53,6 +53,19 @@ fn start_doc(k: usize) -> Document {
             put(8, d(vec![("Title", Object::string_literal("info"))]));
             put(9, arr(vec![Object::Integer(9), r(8)]));
         }
+        4 => {
+            // sparse numbering (5, 9, 11 unused) with dangling references to a gap below the object count, to the number
+            // that becomes the LAST one after compaction (9 objects -> 9), to a gap above it and to a number beyond max_id
+            put(1, d(vec![("Type", name("Catalog")), ("Pages", r(2)), ("Gone", arr(vec![r(5), r(9), r(11), r(99)]))]));
+            put(2, d(vec![("Type", name("Pages")), ("Kids", arr(vec![r(4), r(3)])), ("Count", Object::Integer(2))]));
+            put(3, d(vec![("Type", name("Page")), ("Parent", r(2)), ("Contents", r(6)), ("Resources", r(7))]));
+            put(4, d(vec![("Type", name("Page")), ("Parent", r(2)), ("Contents", arr(vec![r(8)])), ("Resources", r(7)), ("Next", r(9))]));
+            put(6, stream(vec![], b"BT /F1 12 Tf (a) Tj ET"));
+            put(7, d(vec![("Font", d(vec![("F1", r(10))]))]));
+            put(8, stream(vec![("Missing", r(9))], b"BT /F1 12 Tf (b) Tj ET"));
+            put(10, d(vec![("Type", name("Font")), ("Subtype", name("Type1")), ("BaseFont", name("Symbol"))]));
+            put(12, d(vec![("Title", Object::string_literal("info")), ("Prev", r(11))]));
+        }
         1 | 3 => {
             // two pages under an intermediate node with inherited resources, shared font
             put(1, d(vec![("Type", name("Catalog")), ("Pages", r(2))]));
@@ -102,6 +115,10 @@ fn start_doc(k: usize) -> Document {
         if let Some(Object::Dictionary(c)) = doc.objects.get_mut(&(1, 0)) {
             c.set("Meta", r(12));
         }
+    }
+    if k == 4 {
+        doc.trailer.set("Info", r(12));
+        doc.trailer.set("Lost", r(9));
     }
     if k == 2 {
         doc.trailer.set("Info", r(14));
@@ -1119,7 +1136,7 @@ fn main() {
         run.finish_replay(res.is_some());
     }
     run.rule(
-        "breadth-first search over sequences of editing-operation instances (alphabet printed in the evidence) from 4 start documents, on the real \
+        "breadth-first search over sequences of editing-operation instances (alphabet printed in the evidence) from 5 start documents (one with sparse numbering and dangling references), on the real \
          Document with an abstract model; states deduplicated by canonical document digest + model; depth 3 (quick) / 4 (thorough); 8 invariants after \
          every transition; non-trivial = a transition that changes the document digest",
     );
@@ -1127,7 +1144,7 @@ fn main() {
     run.set("alphabet", json!(ops.iter().map(op_json).collect::<Vec<_>>()));
     let depth = if run.thorough { 4 } else { 3 };
     let per_depth: Mutex<BTreeMap<usize, u64>> = Mutex::new(BTreeMap::new());
-    for sk in 0..4usize {
+    for sk in 0..5usize {
         let start = start_doc(sk);
         let m0 = model_of(&start);
         // sanity: invariants hold in the start state
